@@ -30,6 +30,22 @@ def check_instance(inst, F, ctx, extra):
             ctx.violation('into-cast', inst, 'Into', 'From<E> for %s impl not found' % inst.repr, construct=GEN_FILE['Into'])
         for im, p in fs:
             check_into(inst, I, ctx, p, 'Into')
+    # discriminants re-emitted as literals / variant lists by the iterator constructor (range and table_inline modes)
+    if 'iter' in inst.feats:
+        from rules import r_iter as R
+        from rules.shapes import View
+        from props.c06 import struct_name
+        V = View(inst, I, F)
+        spath = inst.mod + '::' + struct_name(inst, 'iter')
+        kind, adt = R.struct_kind(inst, spath)
+        fn = I.assoc_fn('iter')
+        if kind == 'forward' and fn is not None:
+            b = I.body(fn['path'])
+            alts = b.ret_alternatives()
+            if len(alts) == 1 and not b.loops():
+                t = V.strip(alts[0][1])
+                if t[0] == 'agg' and t[1].startswith('adt|' + spath + '|') and t[2]:
+                    R.check_inner_ctor(inst, V, ctx, t[2][0], 'iter', 'iter')
     if len(ctx.samples) < 3 and inst.decl['spelling'] in ('fancy', 'mixed'):
         ctx.sample({'instance': inst.describe()[:300], 'rustc_discriminants': {v['ident']: v['value'] for v in inst.decl['variants'][:8]}})
 
